@@ -93,6 +93,29 @@ EXCEPTIONS = {
 LPWRITER = {"mpq_ILLwrite_lp_state_append", "append_number", "mpq_ILLwrite_lp_state_append_coef"}
 
 
+def _resolve_local(f, t, depth=0):
+    """a local that has exactly one definition in the function stands for the expression it was given"""
+    t0 = strip(t)
+    if not is_var(t0, kind="l") or depth > 2:
+        return t
+    defs = []
+    for b, i, e in f.elements(live_only=False):
+        if e[0] == "D":
+            defs += [init for nme, init in e[1] if nme == t0[2]]
+        elif e[0] == "A" and is_var(strip(e[1][2]), kind="l", name=t0[2]):
+            defs.append(e[1][3] if e[1][1] == "=" else None)
+        elif e[0] == "U" and is_var(strip(e[1][2]), kind="l", name=t0[2]):
+            defs.append(None)
+    defs = [d for d in defs if d is not None or True]
+    real = [d for d in defs if d is not None]
+    if len(real) == 1 and len([d for d in defs if d is None]) <= 1 and all(d is None or d is real[0] for d in defs):
+        # one initialising definition (a declaration without initialiser may precede it)
+        if any(d is None for d in defs) and not any(True for b, i, e in f.elements(live_only=False) if e[0] == "D" and any(nme == t0[2] and init is None for nme, init in e[1])):
+            return t
+        return _resolve_local(f, real[0], depth + 1)
+    return t
+
+
 def array_size(prog, f, t):
     """size in bytes of the fixed char array denoted by t, or None"""
     t = strip(t)
@@ -223,6 +246,9 @@ def run(prog, scope_units=None, scope_funcs=None, rule="R-BUF", exceptions=EXCEP
                 dsz = alloc_size(f, dst)
             if n in BOUNDED:
                 k = BOUNDED[n][1]
+                if len(args) > k:
+                    args = list(args)
+                    args[k] = _resolve_local(f, args[k])      # const size_t bufsize = sizeof (buffer); need = (size_t) n + 1;
                 sz = const_of(args[k]) if len(args) > k else None
                 if sz is not None:
                     if dsz is None or sz <= dsz:
